@@ -137,8 +137,10 @@ class C02(Check):
             if i % chunks != chunk:
                 continue
             two = len(inp) > 1
-            chain = sum(1 for r in inp[0][1] if r[0] == "F") >= 4
-            for pieces in pv.pv_piece_lists(inp, bpt, max_cuts=1 if two else 2, max_pieces=3, margin=(e + 2) if chain else (3 * e + 2)):
+            # families added for specific shapes (>= 3 contigs, or a gap longer than the contig after it) are
+            # explored with the narrow cut window and three arrangements in the quick tier
+            chain = sum(1 for r in inp[0][1] if r[0] == "F") >= 3 or any(r[0] == "G" and r[1] >= 8 * e + 6 for r in inp[0][1])
+            for pieces in pv.pv_piece_lists(inp, bpt, max_cuts=1 if two else 2, max_pieces=3, margin=(e + 2) if (chain and (not full or sum(1 for r in inp[0][1] if r[0] == "F") >= 4)) else (3 * e + 2)):
                 n = len(pieces)
                 arrs = pv.arrangements(n) if n < 3 else pv.arrangements_reduced(n)
                 if chain and not full:
